@@ -940,6 +940,64 @@ pub enum Con {
     Float { f: FT, conv: Option<(Conv, usize, u8)> },
     /// `functions::cumulative(&mut m, starts, durations, demands, capacity)`
     Cumulative { starts: Vec<usize>, durs: Vec<i32>, demands: Vec<i32>, cap: i32 },
+    /// operator-style comparison of two variables: form 0 `x.ge_op(&mut m, y)` (trait `ComparisonOp`),
+    /// form 1 `m.ge_op(x, y)`
+    OpForm { op: Cmp, x: usize, y: usize, form: u8 },
+    /// `&`, `|`, `!` on boolean variables (`constraints::boolean_operators`): mode 0 `m.post_true(e)`,
+    /// 1 `m.post_false(e)`, 2 `e.must_be_true(&mut m)`, 3 `e.must_be_false(&mut m)`
+    BoolEx { e: BX, mode: u8 },
+}
+
+/// boolean operator expression over boolean variables
+#[derive(Clone, Debug, PartialEq)]
+pub enum BX {
+    V(usize),
+    And(Box<BX>, Box<BX>),
+    Or(Box<BX>, Box<BX>),
+    Not(Box<BX>),
+}
+
+impl BX {
+    fn ev(&self, a: &[i64]) -> bool {
+        match self {
+            BX::V(v) => a[*v] != 0,
+            BX::And(l, r) => l.ev(a) && r.ev(a),
+            BX::Or(l, r) => l.ev(a) || r.ev(a),
+            BX::Not(e) => !e.ev(a),
+        }
+    }
+    fn show(&self) -> String {
+        match self {
+            BX::V(v) => format!("x{v}"),
+            BX::And(l, r) => format!("({} & {})", l.show(), r.show()),
+            BX::Or(l, r) => format!("({} | {})", l.show(), r.show()),
+            BX::Not(e) => format!("!{}", e.show()),
+        }
+    }
+    /// built with the overload the operand kinds select (`var & var`, `var & expr`, `expr & var`, `expr & expr`)
+    fn build(&self, uv: &[VarId]) -> Result<VarId, selen::constraints::boolean_operators::BoolExpr> {
+        use selen::constraints::boolean_operators::BoolExpr;
+        let ex = |r: Result<VarId, BoolExpr>| -> BoolExpr { match r { Ok(v) => BoolExpr::from(v), Err(e) => e } };
+        match self {
+            BX::V(v) => Ok(uv[*v]),
+            BX::And(l, r) => Err(match (l.build(uv), r.build(uv)) {
+                (Ok(a), Ok(b)) => a & b,
+                (Ok(a), Err(b)) => a & b,
+                (Err(a), Ok(b)) => a & b,
+                (Err(a), Err(b)) => a & b,
+            }),
+            BX::Or(l, r) => Err(match (l.build(uv), r.build(uv)) {
+                (Ok(a), Ok(b)) => a | b,
+                (Ok(a), Err(b)) => a | b,
+                (Err(a), Ok(b)) => a | b,
+                (Err(a), Err(b)) => a | b,
+            }),
+            BX::Not(e) => Err(match e.build(uv) {
+                Ok(a) => !a,
+                Err(a) => !ex(Err(a)),
+            }),
+        }
+    }
 }
 
 /// cell of an `element_2d/3d` access as the implementation computes it: every index inside the
@@ -993,6 +1051,8 @@ impl Con {
                 None => f.name().to_string(),
             },
             Con::Cumulative { .. } => "fn.cumulative".into(),
+            Con::OpForm { op, form, .. } => format!("{}.{}_op", if *form == 0 { "trait" } else { "m" }, op.name()),
+            Con::BoolEx { mode, .. } => ["m.post_true", "m.post_false", "bx.must_be_true", "bx.must_be_false"][*mode as usize % 4].to_string(),
         }
     }
     fn show(&self) -> String {
@@ -1044,6 +1104,8 @@ impl Con {
                 None => format!("f={}", f.show()),
             },
             Con::Cumulative { starts, durs, demands, cap } => format!("fn.cumulative({},{},{},{cap})", show_vs(starts), crate::out::show_ints(durs), crate::out::show_ints(demands)),
+            Con::OpForm { op, x, y, form } => if *form == 0 { format!("x{x}.{}_op(m,x{y})", op.name()) } else { format!("m.{}_op(x{x},x{y})", op.name()) },
+            Con::BoolEx { e, mode } => format!("{}({})", ["post_true", "post_false", "must_be_true", "must_be_false"][*mode as usize % 4], e.show()),
         }
     }
     /// does the constraint hold under the assignment `a` of the user variables?
@@ -1150,6 +1212,8 @@ impl Con {
                 let t1 = (0..n).map(|i| a[starts[i]] + durs[i].max(0) as i64).max().unwrap_or(0);
                 (t0..t1).all(|t| (0..n).filter(|i| a[starts[*i]] <= t && t < a[starts[*i]] + durs[*i] as i64).map(|i| demands[i] as i64).sum::<i64>() <= *cap as i64)
             }
+            Con::OpForm { op, x, y, .. } => op.test(Rat::int(a[*x]), Rat::int(a[*y])),
+            Con::BoolEx { e, mode } => e.ev(a) == (*mode % 2 == 0),
         })
     }
     fn each_fun(&self, f: &mut dyn FnMut(&Fun)) {
@@ -1751,6 +1815,35 @@ fn post_con(b: &mut Built, c: &Con) -> Result<(), String> {
         Con::Cumulative { starts, durs, demands, cap } => {
             let v = ids(b, starts);
             sp::cumulative(&mut b.m, &v, durs, demands, *cap);
+        }
+        Con::OpForm { op, x, y, form } => {
+            use selen::constraints::operators::ComparisonOp;
+            let (x, y) = (b.uv[*x], b.uv[*y]);
+            let m = &mut b.m;
+            match (op, *form == 0) {
+                (Cmp::Eq, true) => x.eq_op(m, y),
+                (Cmp::Ne, true) => x.ne_op(m, y),
+                (Cmp::Lt, true) => x.lt_op(m, y),
+                (Cmp::Le, true) => x.le_op(m, y),
+                (Cmp::Gt, true) => x.gt_op(m, y),
+                (Cmp::Ge, true) => x.ge_op(m, y),
+                (Cmp::Eq, false) => m.eq_op(x, y),
+                (Cmp::Ne, false) => m.ne_op(x, y),
+                (Cmp::Lt, false) => m.lt_op(x, y),
+                (Cmp::Le, false) => m.le_op(x, y),
+                (Cmp::Gt, false) => m.gt_op(x, y),
+                (Cmp::Ge, false) => m.ge_op(x, y),
+            }
+        }
+        Con::BoolEx { e, mode } => {
+            use selen::constraints::boolean_operators::{BoolExpr, BooleanModel};
+            let ex = match e.build(&b.uv) { Ok(v) => BoolExpr::from(v), Err(e) => e };
+            match *mode % 4 {
+                0 => b.m.post_true(ex),
+                1 => b.m.post_false(ex),
+                2 => ex.must_be_true(&mut b.m),
+                _ => ex.must_be_false(&mut b.m),
+            }
         }
     }
     Ok(())
@@ -2913,6 +3006,14 @@ impl<'a> Gen<'a> {
                         v.push(x);
                     }
                 }
+                // a value list may mention a value more than once (it denotes a set)
+                if r.chance(1, 3) {
+                    for _ in 0..r.range(1, 2) {
+                        let x = *r.pick(&v);
+                        let at = r.below(v.len() as u64 + 1) as usize;
+                        v.insert(at, x);
+                    }
+                }
                 VarDecl::Set(v)
             }
             6 => {
@@ -2968,6 +3069,23 @@ impl<'a> Gen<'a> {
         let b = self.bool_vars();
         let k = self.r.range(lo, hi);
         Some((0..k).map(|_| *self.r.pick(&b)).collect())
+    }
+    /// a boolean operator expression over the boolean variables of the case
+    fn bx(&mut self, depth: u32) -> Option<BX> {
+        self.a_bool()?;
+        // (an operator over one variable only cannot tell `&` from `|`: three booleans if there is room)
+        while self.bool_vars().len() < 3 && self.n() < 4 && space(&self.decls) * 2 <= MAX_SPACE {
+            self.decls.push(VarDecl::Bool);
+        }
+        if depth == 0 || self.r.chance(1, 4) {
+            let b = self.bool_vars();
+            return Some(BX::V(*self.r.pick(&b)));
+        }
+        Some(match self.r.below(5) {
+            0..=1 => BX::And(Box::new(self.bx(depth - 1)?), Box::new(self.bx(depth - 1)?)),
+            2..=3 => BX::Or(Box::new(self.bx(depth - 1)?), Box::new(self.bx(depth - 1)?)),
+            _ => BX::Not(Box::new(self.bx(depth - 1)?)),
+        })
     }
     fn konst(&mut self) -> i32 {
         self.r.range(-4, 4) as i32
@@ -3379,6 +3497,21 @@ impl<'a> Gen<'a> {
         }
     }
     fn con(&mut self) -> Con {
+        // several booleans at hand: operator expressions and clauses over DIFFERENT variables
+        if self.bool_vars().len() >= 2 && self.r.chance(1, 5) {
+            if self.r.chance(2, 3) {
+                let d = self.r.range(2, 3) as u32;
+                if let Some(e) = self.bx(d) {
+                    return Con::BoolEx { e, mode: self.r.below(4) as u8 };
+                }
+            } else {
+                let np = self.r.range(0, 3);
+                let nn = self.r.range(if np == 0 { 1 } else { 0 }, 3);
+                if let (Some(pos), Some(neg)) = (self.bools(np, np), self.bools(nn, nn)) {
+                    return Con::Clause { pos, neg };
+                }
+            }
+        }
         for _ in 0..20 {
             if self.r.chance(10, 100) {
                 match self.new_kind() {
@@ -3388,7 +3521,15 @@ impl<'a> Gen<'a> {
             }
             let w = self.r.below(100);
             let c = match w {
-                0..=29 => Some(self.fluent()),
+                0..=25 => Some(self.fluent()),
+                26..=29 if self.r.chance(1, 2) => {
+                    let op = *self.r.pick(&Cmp::ALL);
+                    Some(Con::OpForm { op, x: self.var(), y: self.var(), form: self.r.below(2) as u8 })
+                }
+                26..=29 => {
+                    let d = self.r.range(1, 3) as u32;
+                    self.bx(d).map(|e| Con::BoolEx { e, mode: self.r.below(4) as u8 })
+                }
                 30..=45 => Some(self.fun()),
                 46..=49 => Some(Con::AllDiff(self.vars(2, 4, self.r.0 % 6 != 0), self.r.below(2) as u8)),
                 50..=52 => Some(Con::AllEq(self.vars(1, 3, false), self.r.below(2) as u8)),
@@ -3420,8 +3561,8 @@ impl<'a> Gen<'a> {
                 }
                 78..=80 => self.bools(2, 2).map(|b| Con::Implies(b[0], b[1], self.r.below(2) as u8)),
                 81..=83 => {
-                    let np = self.r.range(0, 2);
-                    let nn = self.r.range(if np == 0 { 1 } else { 0 }, 2);
+                    let np = self.r.range(0, 3);
+                    let nn = self.r.range(if np == 0 { 1 } else { 0 }, 3);
                     match (self.bools(np, np), self.bools(nn, nn)) {
                         (Some(pos), Some(neg)) => Some(Con::Clause { pos, neg }),
                         _ => None,
